@@ -47,9 +47,19 @@ func (e *m3Env) flushes() []int64 {
 }
 
 func newM3Env(nSinks int, opts m3.Options, inner func(int)) (*m3Env, error) {
+	return newM3EnvPorts(nSinks, opts, inner, false)
+}
+
+// newM3EnvPorts: lowPorts puts the sinks below the ephemeral port range (for
+// lifetimes that close a sink while the reporter is still sending).
+func newM3EnvPorts(nSinks int, opts m3.Options, inner func(int), lowPorts bool) (*m3Env, error) {
 	e := &m3Env{inner: inner}
 	for i := 0; i < nSinks; i++ {
-		s, err := mon.NewSink()
+		newSink := mon.NewSink
+		if lowPorts {
+			newSink = mon.NewSinkLowPort
+		}
+		s, err := newSink()
 		if err != nil {
 			return nil, err
 		}
